@@ -1329,7 +1329,7 @@ def run(ctx):
     ctx.trusted += ['Model/ChanMgr.v is a hand-written reading of bumble/l2cap.py (ChannelManager and the '
                     'connection/disconnection paths of the channel classes), tied to the code by differential '
                     'execution, by the regenerated Gen/C09Tables.v (CID ranges, per-connection tables, cleanup) and '
-                    'by the regenerated effect skeleton Gen/C09Skeleton.v of the 39 functions it reads '
+                    'by the regenerated effect skeleton Gen/C09Skeleton.v of the 40 functions it reads '
                     '(C09_skeleton_matches_source pins their shape, not their meaning)',
                     'the host shim of tools/harness/c09.py (ShimHost/ShimConnection) stands for bumble.host.Host and '
                     'bumble.device.Connection; the order of the two disconnection callbacks is the one of Device']
